@@ -271,7 +271,7 @@ def run(ctx):
     try:
         run_state_machine_as_test(
             machine,
-            settings=settings(max_examples=60 if q else 1500, stateful_step_count=7, deadline=None, database=None, report_multiple_bugs=False,
+            settings=settings(max_examples=120 if q else 1500, stateful_step_count=7, deadline=None, database=None, report_multiple_bugs=False,
                               phases=phases, suppress_health_check=list(HealthCheck), print_blob=False),
         )
     except Violation as v:
